@@ -23,7 +23,7 @@ type Network struct {
 	maxID          int
 	freeMap        map[int]struct{}
 	minimizeOption MinimizeOption
-	minimumSpeed   float64 // The minimum speed traveled on any link in the network.
+	maximumSpeed   float64 // The maximum speed traveled on any link in the network.
 }
 
 // NewNetwork initializes a new Network where m determines how to choose
@@ -36,7 +36,6 @@ func NewNetwork(m MinimizeOption) *Network {
 		nodes:          rtree.NewTree(25, 50),
 		edges:          rtree.NewTree(25, 50),
 		minimizeOption: m,
-		minimumSpeed:   math.Inf(1),
 	}
 }
 
@@ -158,8 +157,8 @@ func (net *Network) AddLink(l geom.LineString, speed float64) {
 		speed:      speed,
 		time:       length / speed,
 	}
-	if e.speed < net.minimumSpeed {
-		net.minimumSpeed = e.speed
+	if e.speed > net.maximumSpeed {
+		net.maximumSpeed = e.speed
 	}
 	fid := from.ID()
 	tid := to.ID()
@@ -281,11 +280,11 @@ func (net Network) ShortestRoute(from, to geom.Point) (
 func (net *Network) costHeuristic(x, y graph.Node) float64 {
 	distance := op.Distance(x.(*node).Point, y.(*node).Point)
 	switch net.minimizeOption {
-	// If we're optimizing by time, return use the minimum speed to
+	// If we're optimizing by time, use the maximum speed to
 	// calculate the time to ensure the heuristic is less than the actual
 	// value
 	case Time:
-		return distance / net.minimumSpeed
+		return distance / net.maximumSpeed
 	case Distance:
 		// If we're optimizing by distance, just return the distance.
 		return distance
